@@ -210,7 +210,15 @@ func normalisationFacts(p *Program, root *ssa.Function) map[string]bool {
 					a := condAtom(ifi.Cond, true)
 					if n, isC := intConst(a.Y); isC {
 						if f := requestFieldOf(a.X, 0, map[ssa.Value]bool{}); normFields[f] {
-							facts[fmt.Sprintf("%s%s%d", strings.TrimPrefix(f, "param:"), a.Op, n)] = true
+							// integers: `x <= n` is `x < n+1`, `x >= n` is `x > n-1` — one spelling per test
+							op := a.Op
+							switch op {
+							case token.LEQ:
+								op, n = token.LSS, n+1
+							case token.GEQ:
+								op, n = token.GTR, n-1
+							}
+							facts[fmt.Sprintf("%s%s%d", strings.TrimPrefix(f, "param:"), op, n)] = true
 						}
 					}
 				}
@@ -232,6 +240,27 @@ func normalisationFacts(p *Program, root *ssa.Function) map[string]bool {
 					if fv, ok := st.Addr.(*ssa.FreeVar); ok {
 						if n, isC := intConst(st.Val); isC && namedName(st.Val.Type()) == "Duration" {
 							facts[fmt.Sprintf("%s:=%d", fv.Name(), n)] = true
+						}
+					}
+				}
+				// a clamp spelled with the builtins: max(x, c) is `if x < c { x = c }`, min(x, c) is `if x > c { x = c }`
+				if call, ok := ins.(*ssa.Call); ok {
+					isMax, isMin := builtinCall(call, "max") != nil, builtinCall(call, "min") != nil
+					if (isMax || isMin) && len(call.Call.Args) == 2 {
+						for i := 0; i < 2; i++ {
+							n, isC := intConst(call.Call.Args[1-i])
+							if !isC {
+								continue
+							}
+							if f := requestFieldOf(call.Call.Args[i], 0, map[ssa.Value]bool{}); normFields[f] {
+								name := strings.TrimPrefix(f, "param:")
+								if isMax {
+									facts[fmt.Sprintf("%s<%d", name, n)] = true
+								} else {
+									facts[fmt.Sprintf("%s>%d", name, n)] = true
+								}
+								facts[fmt.Sprintf("%s:=%d", name, n)] = true
+							}
 						}
 					}
 				}
